@@ -114,6 +114,15 @@ class MsgProp:
             if r < 0.35:
                 bad = rng.choice([b"F0000000", b"I", b"1", b"5000", b"8", b"0", b"1~~~", payload[:3] if len(payload) > 3 else b"1"])
                 ops.append(L(ais.sentence(bad, fill=0), 0, 1))
+            if rng.random() < 0.3 and len(payload) >= 4:
+                # the line before: the same characters in another order (same length, fill and checksum, another
+                # message - often another type); nothing of it may survive into the next decode
+                q = bytearray(payload)
+                i2 = rng.randrange(1, len(q))
+                q[0], q[i2] = q[i2], q[0]
+                if rng.random() < 0.5:
+                    rng.shuffle(q)
+                ops.append(L(ais.sentence(bytes(q), fill=fill), 0, 1))
             if rng.random() < 0.6 or len(payload) < 4:
                 ops.append(L(ais.sentence(payload, fill=fill), 0, 1))
             else:
@@ -125,16 +134,57 @@ class MsgProp:
                     # the opening sentence of an earlier group with the same id and the same length whose
                     # remainder never arrived
                     ops.append(L(ais.sentence(gen.random_alphabet(rng, len(pieces[0])), fill=0, nf=n, fn=1, mid=mid), 0, 1))
+                vary = rng.random() < 0.4
                 for i, pc in enumerate(pieces):
-                    ops.append(L(ais.sentence(pc, fill=fill if i == n - 1 else 0, nf=n, fn=i + 1, mid=mid), 0, 1))
+                    kw = {}
+                    if vary:
+                        # a group is its count, numbering and id; everything else may change between fragments
+                        kw = dict(channel=rng.choice([b"A", b"B", b"", b"1"]), talker=rng.choice([b"AI", b"AB", b"BS", b"XX"]),
+                                  report=rng.choice([b"VDM", b"VDO", b"VDX"]), delim=rng.choice([b"!", b"$"]),
+                                  tagblock=rng.choice([None, b"c:%d*00" % i]))
+                    ops.append(L(ais.sentence(pc, fill=fill if i == n - 1 else 0, nf=n, fn=i + 1, mid=mid, **kw), 0, 1))
                     if i < n - 1 and rng.random() < 0.4:
                         # a repeated or stray fragment: rejected, and must leave nothing behind
                         j = rng.choice([i + 1, i + 3]) if i > 0 else i + 3
                         ops.append(L(ais.sentence(pc, fill=0, nf=max(n, j), fn=j, mid=mid), 0, 1))
+                    if i < n - 1 and rng.random() < 0.4:
+                        # an unfragmented sentence from another station (accepted; decodable, undecodable, or not
+                        # decoded at all) between the fragments: it must not touch the open group
+                        other = rng.choice([gen.valid_message_payload(rng), (b"F0000", 0), (b"1", 0), (gen.random_alphabet(rng, 20), 0)])
+                        ops.append(L(ais.sentence(other[0], fill=other[1], channel=rng.choice([b"A", b"B"]),
+                                                  talker=rng.choice([b"AI", b"AB"]), report=rng.choice([b"VDM", b"VDO"]),
+                                                  mid=rng.choice([None, None, mid, 7])), 0, rng.randrange(2)))
             # what unarmoring hands to the decoder: ceil(6 * chars / 8) bytes, the declared fill bits zeroed
             exp = bs + bytes((6 * len(payload) + 7) // 8 - len(bs))
             marks.append((len(ops) - 1, m_op(exp)))
+        long_ops, long_marks = [], []
+        if cfg != "noalloc":
+            # a payload far beyond any real message (11 000 and 22 000 characters: positions beyond 2^16 bits and
+            # 2^13 bytes), as one sentence and as a group of 30 fragments: what precedes the tail is decoded as ever
+            for extra in (11000,):
+                mop, mm = rng.choice(pairs)
+                bs = bytes.fromhex(mop.split(" ")[1])
+                tail = bytes(rng.getrandbits(8) | 0x81 for _ in range(extra * 6 // 8))
+                bits = ais.bytes_to_bits(bs + tail)
+                bits = bits[:len(bits) - len(bits) % 6]
+                payload, fill = ais.armor(bits)
+                exp = ais.bits_to_bytes(bits + [0] * ((8 - len(bits) % 8) % 8))
+                long_ops.append("N 0")
+                long_ops.append(L(ais.sentence(payload, fill=fill), 0, 1))
+                long_marks.append((len(long_ops) - 1, m_op(exp)))
+                cut = [len(payload) * i // 30 for i in range(31)]
+                for i in range(30):
+                    long_ops.append(L(ais.sentence(payload[cut[i]:cut[i + 1]], fill=fill if i == 29 else 0, nf=30, fn=i + 1, mid=6), 0, 1))
+                long_marks.append((len(long_ops) - 1, m_op(exp)))
         impl = core.run_impl(cfg, ops)
+        if long_ops:
+            # (their own stream, judged on the answers only: the model's list-based unarmoring is quadratic, so the
+            # model is asked for the decoding of the expected bytes, not for the line)
+            limpl = core.run_impl(cfg, long_ops, reconcile=False)
+            base_n = len(ops)
+            ops = ops + long_ops
+            impl = impl + limpl
+            marks = marks + [(base_n + i, mo) for (i, mo) in long_marks]
         exp_model = core.run_model(cfg, [mo for _, mo in marks])
         for (idx, mop), mm in zip(marks, exp_model):
             a = impl[idx]
@@ -173,8 +223,12 @@ class C04(MsgProp):
             "assignments; type 7/13/20 with 1-4 elements, type 15 in its 88/110/160-bit forms, type 16 with 1-2 "
             "stations; projection = every integer/flag/identifier key. non-trivial = distinct payload decoded ok by the implementation")
 
+    # one-bit flags that the crate reports through a two-valued enumeration (C12 owns the naming; that the flag
+    # read is the transmitted bit at the layout's position is this property's)
+    FLAG_ENUMS = {"dte", "position_accuracy", "accuracy", "fix_quality", "assigned_mode", "cs_unit"}
+
     def project(self, op, ans):
-        return proj_keys(ans, int_key)
+        return proj_keys(ans, lambda k, kind, v: int_key(k, kind, v) or base(k) in self.FLAG_ENUMS)
 
     def cases(self, tier, rng):
         nrand = 40 if tier == "quick" else 600
@@ -563,10 +617,20 @@ class C12(MsgProp):
                     vals = [s << 17 | rng.getrandbits(17) for s in range(4)]
                 else:
                     vals = range(1 << w)
+                mm = [n2 for (n2, o2, w2) in layout if w2 == 30 and "mmsi" in n2]
                 for v in vals:
                     f = gen.base_fields(t, rng, layout)
                     f[name] = v
                     ops.append(m_op(gen.full_payload(t, f) + gen.tail_for(t, rng)))
+                    # the code's meaning must not depend on who transmits it: every family of station identity
+                    fams = range(gen.MMSI_FAMILIES) if (1 << w) <= 32 else [rng.randrange(gen.MMSI_FAMILIES)]
+                    for fam in fams:
+                        if not mm:
+                            break
+                        f = gen.base_fields(t, rng, layout)
+                        f[name] = v
+                        f[mm[0]] = gen.structured_mmsi(rng, fam)
+                        ops.append(m_op(gen.full_payload(t, f) + gen.tail_for(t, rng)))
             if ops:
                 yield (f"enum:{t}", ops)
 
@@ -616,9 +680,7 @@ class C13(MsgProp):
                     for c in chars:
                         v = (v << 6) | c
                     f[name] = v
-                    if t == "24B" and name == "vendor_id":
-                        pass
-                    ops.append(m_op(gen.full_payload(t, f)))
+                    ops.append(m_op(gen.full_payload(t, f) + gen.tail_for(t, rng)))
             yield (f"text:{t}", ops)
         # truncated type 5: the destination is what is present (every byte length from the draught on)
         ops = []
@@ -854,7 +916,16 @@ class C16(MsgProp):
                         f["selector"] = sel
                     else:
                         f["raim"] = sel
-                    ops.append(m_op(gen.full_payload(t, f)))
+                    bs = gen.full_payload(t, f)
+                    r = rng.random()
+                    if r < 0.12:
+                        # a payload longer than 168 bits (trailing bytes, a 29th character): the state is still
+                        # bits 149-167, not the end of the buffer
+                        bs += bytes(rng.getrandbits(8) for _ in range(rng.choice([1, 1, 2, 3, 5])))
+                    elif r < 0.16:
+                        # cut short: there is no state to report, the message is an error
+                        bs = bs[:rng.choice([20, 20, 19, 18, 12])]
+                    ops.append(m_op(bs))
             yield (f"radio:{t}", ops)
 
 
@@ -908,6 +979,111 @@ class C03:
                     t[pos] = bad
                     ops.append(f"U {rng.randrange(6)} {bytes(t).hex()}")
         yield ("invalid-byte", ops)
+        # well-formed multi-byte UTF-8 sequences (a payload read as text): every byte of them is outside the
+        # alphabet, whatever their code point is modulo 256
+        ops = []
+        seqs = [bytes([0xC4, 0xB0]), bytes([0xC5, 0xB7]), bytes([0xC3, 0xA9]), bytes([0xC2, 0xB1]), bytes([0xE2, 0x80, 0xB0]),
+                bytes([0xE6, 0xB8, 0xAF]), bytes([0xF0, 0x9F, 0x80, 0xB0]), bytes([0xF0, 0x9F, 0x9A, 0xA2]), "\u0131".encode(), "\u0141".encode(),
+                "\u2030".encode(), "\u0430".encode(), "\uff11".encode()]
+        for cp in list(range(0x130, 0x178, 3)) + list(range(0x2030, 0x2078, 5)) + list(range(0x1F030, 0x1F078, 7)):
+            seqs.append(chr(cp).encode())
+        for sq in seqs:
+            for n in (0, 1, 3, 6):
+                s = gen.random_alphabet(rng, n)
+                pos = rng.randrange(n + 1)
+                ops.append(f"U {rng.randrange(6)} {(s[:pos] + sq + s[pos:]).hex()}")
+        yield ("utf8-sequence", ops)
+
+    def extra_run(self, rep, tier, cfgs):
+        """Very long strings (around and beyond 2^16 bits / bytes of output: 10 922, 21 845, 43 690, 65 536 ...
+        characters): the implementation against the Python transcription of the statement only - the Lean model
+        mirrors the code's indexed writes on a list and is quadratic, so it is consulted up to 8 200 characters (std)."""
+        import random
+        from . import core
+        rng = random.Random(77)
+        lens = [8191, 8192, 8193, 10921, 10922, 10923, 10924, 10925, 10930, 16383, 16384, 16385, 21845, 21846, 32767, 32768, 43690, 43691,
+                65535, 65536, 65537, 87381, 87382]
+        if tier != "quick":
+            lens += [131072, 174763, 262144]
+        ops = []
+        for n in lens:
+            body = gen.random_alphabet(rng, n)
+            # the last characters all-ones: a wrapped index ORs them onto the start of the output
+            body = body[:-8] + b"w" * 8
+            ops.append(f"U {rng.randrange(6)} {body.hex()}")
+            ops.append(f"U 0 {(b'0' * (n - 4) + b'wwww').hex()}")
+        for cfg in cfgs:
+            impl = core.run_impl(cfg, ops)
+            short = [o for o in ops if len(o.split(' ')[2]) // 2 <= 8200] if cfg == "std" else []
+            model = dict(zip(short, core.run_model(cfg, short))) if short else {}
+            for op, a in zip(ops, impl):
+                rep.evaluations += 1
+                rep.count("very-long")
+                _, fill, hx = op.split(" ")
+                data = bytes.fromhex(hx)
+                spec = ais.spec_unarmor(data, int(fill))
+                want = "ok " + spec.hex()
+                if cfg == "noalloc" and len(spec) > 384:
+                    want = "err"
+                if a.strip() != want:
+                    k = next((i for i, (x, y) in enumerate(zip(a, want)) if x != y), min(len(a), len(want)))
+                    rep.violation(f"C03: unarmor of {len(data)} characters (fill {fill}) differs from the specified bytes from output "
+                                  f"position {max(0, (k - 3) // 2)} on (or is {a[:10]!r} instead of {want[:10]!r})",
+                                  {"cfg": cfg, "ops": [op], "impl": a[:200], "spec": want[:200]})
+                    break
+                if op in model and model[op].strip() != a.strip():
+                    rep.violation("C03: model disagrees with implementation (and specification) on a long string",
+                                  {"cfg": cfg, "ops": [op], "impl": a[:200], "model": model[op][:200]})
+                    break
+
+    def line_stage(self, rep, cfg, rng, u_ops, model_u):
+        """The parser's own use of unarmor: a sample of the armored strings (and payloads of real messages, cut and
+        padded to every length class and fill count) sent as sentences and as groups through ONE parser with
+        decoding on, each after lines whose unarmoring or decoding fails; the decoded message (or error) must be
+        what the model gives for the same history - a parser that keeps unarmored bits between lines shows here."""
+        from . import core
+        from .props_sent import L
+        cand = [o for o in u_ops if o.startswith("U ") and o.split(" ")[2] != "-" and len(o.split(" ")[2]) <= 700]
+        cand = rng.sample(cand, min(150, len(cand)))
+        ops = []
+        for k, o in enumerate(cand):
+            if k % 10 == 0:
+                ops.append("N 0")
+            _, fill, hx = o.split(" ")
+            data = bytes.fromhex(hx)
+            if b"," in data or b"*" in data:
+                continue
+            r = rng.random()
+            if r < 0.4:
+                # a real message whose armored text gets the sample's length class and fill
+                p, f = gen.valid_message_payload(rng)
+                data, fill = (p + gen.random_alphabet(rng, len(data) % 4)), rng.choice([f, int(fill)])
+            # a line that fails in unarmor (bad character), in the decoder (unsupported type, too short) or not at all
+            pre = rng.choice([None, b"1~~~", b"F0000000", b"1", b"0", b"55" + b"x", b"15M:Ih0P00G?Uf6E`FepT@3n00Sa"])
+            if pre is not None:
+                ops.append(L(ais.sentence(pre, fill=0), 0, 1))
+            if len(data) >= 4 and rng.random() < 0.3:
+                cut = rng.randrange(1, len(data))
+                ops.append(L(ais.sentence(data[:cut], nf=2, fn=1, mid=2, fill=0), 0, 1))
+                ops.append(L(ais.sentence(data[cut:], nf=2, fn=2, mid=2, fill=int(fill)), 0, 1))
+            else:
+                ops.append(L(ais.sentence(data, fill=int(fill)), 0, 1))
+        impl = core.run_impl(cfg, ops)
+        model = core.run_model(cfg, ops)
+        start = 0
+        for i, (op, a, m) in enumerate(zip(ops, impl, model)):
+            if op.startswith("N "):
+                start = i
+                continue
+            rep.evaluations += 1
+            rep.count("lines:" + a.split(" ")[0])
+            if a != m:
+                rep.violation("C03: through AisParser::parse (decode on) the outcome differs from the model's for the same "
+                              f"history of {i - start} lines (the unarmored bits handed to the decoder are not the line's own): "
+                              f"impl={a[:160]!r} model={m[:160]!r}", {"cfg": cfg, "ops": ops[start:i + 1], "impl": a, "model": m})
+                return
+            if a.startswith("C "):
+                rep.nontrivial.add(op)
 
     def judge(self, rep, cfg, label, ops, impl, model):
         for op, a, m in zip(ops, impl, model):
